@@ -21,9 +21,9 @@ func init() {
 
 func (p *c19) NumCases(tier string) int {
 	if tier == "thorough" {
-		return 100000
+		return 200000
 	}
-	return 8000
+	return 30000
 }
 
 func (p *c19) RunCase(ctx *runner.Ctx) runner.CaseResult {
